@@ -121,4 +121,41 @@ theorem hello_switches (c : Ctx) (s : State) (conn ref : Nat) (m : Bool) (v : In
   unfold runCmd
   rcases hv with h | h <;> subst h <;> simp
 
+
+/-! ### every data command, whatever its arguments -/
+
+/-- what a data command may change: nothing but the database it is bound to -/
+structure Local (s : State) (ref : Nat) (o : Out) : Prop where
+  others : ∀ r, (ref == r) = false → o.st.getDb r = s.getDb r
+  sessions : o.st.sessions = s.sessions
+  table : o.st.table = s.table
+
+theorem onDb_local (s : State) (ref : Nat) (f : Db → R) : Local s ref (onDb s ref f) :=
+  ⟨fun r h => (onDb_other_untouched s ref r f h).1, by unfold onDb; simp, by unfold onDb; simp⟩
+
+theorem same_local (s : State) (ref : Nat) (v : Value) : Local s ref { st := s, reply := v } :=
+  ⟨fun _ _ => rfl, rfl, rfl⟩
+
+/-- **A data command touches nothing but its own database.** Every command that is not a session or
+    server command — any arguments, any state — leaves every other database, every connection's session
+    (selected database, protocol, name, queue, watches) and the table of databases exactly as they were. -/
+theorem data_command_local (c : Ctx) (s : State) (conn ref : Nat) (m : Bool) (cmd : Cmd)
+    (hs : cmd.isSession = false) : Local s ref (runCmd c s conn ref m cmd) := by
+  cases cmd <;> (try (simp [Cmd.isSession] at hs; done))
+  all_goals simp only [runCmd]
+  all_goals repeat' (first | exact onDb_local s ref _ | exact same_local s ref _ | split)
+
+/-- … and what it answers and does there depends on nothing but that database: two servers that agree
+    on it get the same reply and end with the same database. -/
+theorem data_command_depends_on_own_db (c : Ctx) (s s' : State) (conn ref : Nat) (m : Bool) (cmd : Cmd)
+    (hs : cmd.isSession = false) (hdb : s.getDb ref = s'.getDb ref) :
+    (runCmd c s conn ref m cmd).reply = (runCmd c s' conn ref m cmd).reply ∧
+    (runCmd c s conn ref m cmd).st.getDb ref = (runCmd c s' conn ref m cmd).st.getDb ref := by
+  cases cmd <;> (try (simp [Cmd.isSession] at hs; done))
+  all_goals simp only [runCmd]
+  all_goals repeat' (first
+    | (rw [(onDb_bound_db s ref _).1, (onDb_bound_db s ref _).2, (onDb_bound_db s' ref _).1, (onDb_bound_db s' ref _).2, hdb]; exact ⟨rfl, rfl⟩)
+    | exact ⟨rfl, hdb⟩
+    | split)
+
 end RedisEmu
